@@ -124,6 +124,10 @@ var qTemplates = []qTemplate{
 			succ = "no"
 			exit = "-13"
 		}
+		if v&(1<<27) != 0 && v&(1<<26) != 0 {
+			// return values at and beyond the edges of the errno table and of the integer types
+			exit = []string{"-1", "-133", "-134", "-4095", "-4096", "-2147483648", "2147483648", "-9223372036854775808", "9223372036854775807", "-9223372036854775809", "18446744073709551615", "-0", "0x10", ""}[int(v>>8)%14]
+		}
 		key := `(null)`
 		if v&2 == 2 {
 			key = `"k` + strconv.Itoa(int(v>>20)%3) + `"`
